@@ -4,6 +4,7 @@ import TwistedProps.C01.Program
 import TwistedProps.C01.LeafProgram
 import TwistedProps.C01.Refine
 import TwistedProps.C01.ChainProg
+import TwistedProps.C01.ValueBlind
 /-!
 C01 — Deferred callback chains compute what a sequential interpreter predicts.
 
@@ -355,5 +356,29 @@ example : (exec (init 2) witnessMidChain).map (fun s => (s.trace.map (fun e => (
     some ([(0, 0, .ok 1), (0, 1, .ok 5), (1, 3, .pyNone), (0, 2, .ok 7)], [.ok 2, .pyNone]) := by decide
 example : Twisted.Defer.Spec.history (init 2) demo = history (init 2) demo := by decide
 example : inDomain witnessPausedChainee = true ∧ inDomain witnessMidChain = true := by decide
+
+/-! ## 5. the model is blind to values
+
+The check runs programs that fire / return `None` (and Failures, Deferreds of subclasses, callables with extra
+arguments) through this model with `None` written as the opaque value 9.  Nothing is lost: renaming the plain values of a
+program by ANY function `f` (injective or not) renames the run and changes nothing else — outcomes of the operations,
+which callables run and when, called / paused / pending callbacks of every Deferred after every operation. -/
+theorem run_value_blind (f : Nat → Nat) (n : Nat) (ops : List Op) :
+    history (init n) (ops.map (VB.mapOp f))
+      = (history (init n) ops).map (List.map fun r => (r.1, VB.mapState f r.2)) := by
+  have h := VB.history_map f (init n) ops
+  rwa [VB.init_map] at h
+
+/-- non-vacuity: value 9 renamed to 0 in a program with a steal, a wait and an errback -/
+def demoRename : List Op :=
+  [.callback 1 9, .add 0 (.user (.retDef 1)) .passthru, .add 0 (.user (.value 9)) (.user (.value 2)), .callback 0 1,
+   .add 1 (.user (.raise 3)) .passthru, .add 1 .passthru (.user (.value 9))]
+example : (history (init 2) (demoRename.map (VB.mapOp fun n => if n = 9 then 0 else n))).map
+      (fun h => h.map (fun p => p.2.cells.map (·.result))) =
+    some [[.unset, .ok 0], [.unset, .ok 0], [.unset, .ok 0], [.ok 0, .pyNone], [.ok 0, .fail 3], [.ok 0, .ok 0]] := by
+  decide
+example : (history (init 2) demoRename).map (fun h => h.map (fun p => p.2.cells.map (·.result))) =
+    some [[.unset, .ok 9], [.unset, .ok 9], [.unset, .ok 9], [.ok 9, .pyNone], [.ok 9, .fail 3], [.ok 9, .ok 9]] := by
+  decide
 
 end TwistedProps.C01
